@@ -425,11 +425,25 @@ def run(R):
         R.check(okc, 'C17.R3', 'content-type', site(cb), 'content-type: application/grpc-web inserted')
         R.eq(web.const('call::content_types::GRPC_WEB').get('v'), 'application/grpc-web', 'C17.R3', 'GRPC_WEB-const', '', 'GRPC_WEB')
         mp = cb.calls(pat='Request', name='map')
-        def maps_with(body_, t_, ctor):
+        def maps_with(body_, t_, ctor, depth=0):
             # .map(GrpcWebCall::<ctor>) or .map(|b| GrpcWebCall::<ctor>(b, ..)) with the closure's own parameter as the body
             for a in t_['args']:
                 if 'k' in a and a['k'].get('fn', '').endswith(ctor):
                     return True
+                # .. or a named private function that does the wrapping: fn f(r: Response<B>) { r.map(GrpcWebCall::<ctor>) } or
+                # { let (parts, body) = r.into_parts(); Response::from_parts(parts, GrpcWebCall::<ctor>(body)) }
+                fp_ = a['k'].get('fn') if 'k' in a else None
+                hb_ = (web.helper_defs.get(fp_) or (web.by_path.get(fp_) or [None])[0]) if fp_ and depth < 2 else None
+                if hb_ is not None and hb_.kind == 'fn':
+                    if any(maps_with(hb_, t2, ctor, depth + 1) for bb2, t2 in hb_.calls(name='map')):
+                        return True
+                    for bb2, t2 in hb_.calls(name=ctor):
+                        if 'GrpcWebCall' not in (t2.get('fn') or '') or not mentions_arg(hb_.origin(t2['args'][0]), 1) or not mentions_call(hb_.origin(t2['args'][0]), name='into_parts'):
+                            continue
+                        fps_ = [t3 for bb3, t3 in hb_.calls(name='from_parts') if t3['dest']['l'] == 0 and len(t3['args']) == 2 and is_call(strip_refs(hb_.origin(t3['args'][1])), name=ctor)
+                                and mentions_call(hb_.origin(t3['args'][0]), name='into_parts')]
+                        if len(fps_) == 1 and all(hb_.dominates(bb2, rb_) for rb_ in hb_.return_blocks()):
+                            return True
                 o_ = strip_refs(body_.origin(a))
                 if o_ and o_[0] == 'agg' and isinstance(o_[1], dict) and o_[1].get('def'):
                     cl_ = [x for x in web.bodies if x.path == o_[1]['def']]
